@@ -633,6 +633,7 @@ type roundEvent struct {
 	val   aval
 	call  *ssa.Function // or: a call
 	depr  bool          // the call is (or contains) the test for @deprecated
+	nameT bool          // or: a branch on the name of a field definition (`IsBuiltinName(fi.Name)`)
 }
 
 type roundOutcome struct {
@@ -829,6 +830,10 @@ func (rr *roundRunner) run(name, kind, argAbsent string) (outs []*roundOutcome, 
 			return
 		}
 		switch x := ins.(type) {
+		case *ssa.If:
+			if condOnDefinitionName(x.Cond) {
+				u.out.events = append(u.out.events, roundEvent{nameT: true})
+			}
 		case *ssa.MapUpdate:
 			if rr.results[x.Map] && aliasKey(x.Key) {
 				u.out.events = append(u.out.events, roundEvent{store: x, val: fr.eval(x.Value, st)})
@@ -857,4 +862,33 @@ func kindList(ks map[string]bool) string {
 	}
 	sort.Strings(s)
 	return fmt.Sprint(s)
+}
+
+// condOnDefinitionName: the condition is computed from the Name of a field definition of the
+// schema (not of the selected field)
+func condOnDefinitionName(cond ssa.Value) bool {
+	seen := map[ssa.Value]bool{}
+	var f func(v ssa.Value, d int) bool
+	f = func(v ssa.Value, d int) bool {
+		if v == nil || seen[v] || d > 6 {
+			return false
+		}
+		seen[v] = true
+		if ld, ok := v.(*ssa.UnOp); ok && ld.Op == token.MUL {
+			if fa, ok := ld.X.(*ssa.FieldAddr); ok && fieldOf(fa) != nil && fieldOf(fa).Name() == "Name" && strings.HasSuffix(namedOf(fa.X.Type()), "gqlparser/v2/ast.FieldDefinition") {
+				return true
+			}
+		}
+		ins, ok := v.(ssa.Instruction)
+		if !ok {
+			return false
+		}
+		for _, op := range operandsOf(ins) {
+			if f(op, d+1) {
+				return true
+			}
+		}
+		return false
+	}
+	return f(cond, 0)
 }
